@@ -142,6 +142,33 @@ impl<C> Server<C> {
     }
 }
 
+/// Verification hooks (cargo feature `verif_hooks`, off by default).
+#[cfg(feature = "verif_hooks")]
+impl<C> Server<C> {
+    /// Simulates the passage of `secs` seconds for response
+    /// rate-limiting (see `Rrl::verif_shift`). Does nothing if RRL is
+    /// not enabled.
+    pub fn verif_rrl_shift(&self, secs: u64) {
+        if let Some(ref rrl) = self.rrl {
+            rrl.verif_shift(secs);
+        }
+    }
+
+    /// Returns the RRL bucket index, masked destination and QNAME hash
+    /// for a response (see `Rrl::verif_probe`), or `None` if RRL is not
+    /// enabled.
+    pub fn verif_rrl_probe(
+        &self,
+        source: std::net::IpAddr,
+        qname: &crate::name::Name,
+        rcode: ExtendedRcode,
+    ) -> Option<(usize, u64, u32)> {
+        self.rrl
+            .as_ref()
+            .map(|rrl| rrl.verif_probe(source, qname, rcode))
+    }
+}
+
 impl<C> Server<C>
 where
     C: Catalog,
